@@ -182,6 +182,13 @@ impl Check for Forwarder {
     fn components(&self) -> serde_json::Value {
         serde_json::json!({"real": ["examples/fee-forwarder-permissionless and -permissioned (from source)", "stellar_fee_abstraction::*", "fungible Base fee token", "access_control roles (permissioned)"], "stub": ["Target (records calls, requires the user's auth, scripted trap)", "Wallet"]})
     }
+    fn property_of(&self, check: &str) -> std::vec::Vec<&'static str> {
+        if check.starts_with("roles.") {
+            vec!["C06", "C19"]
+        } else {
+            vec!["C19"]
+        }
+    }
     fn clock_step(&self, n: u32) -> Option<Step> {
         Some(Step::Advance { n })
     }
@@ -369,7 +376,14 @@ impl Check for Forwarder {
             if let Some((got, exp)) = outcome {
                 st.tx(kind, got);
                 if got != exp {
+                    // a refusal whose only reason is the role / authorization of the operator or relayer (C06 as well as C19)
+                    let role_reason = match s {
+                        Step::Allow { by_manager, .. } | Step::Sweep { by_manager, .. } => !*by_manager,
+                        Step::Forward { relayer, relayer_signs, .. } => cfg.permissioned && (*relayer != 1 || !*relayer_signs),
+                        _ => false,
+                    };
                     let check = match (kind, got) {
+                        (_, true) if role_reason => "roles.manager_or_executor_only",
                         ("forward", true) => "charge.needs_user_auth_over_exact_call_and_bounds",
                         (_, true) => "refine.must_fail",
                         (_, false) => "live.must_succeed",
